@@ -23,6 +23,8 @@ pub struct Model {
     pub fields: Vec<Field>,
     pub extra_keys: bool,
     pub run: fn(&Primitive) -> RoundTrip,
+    /// C18: load object 4 of a file as this model and write it back (Err: "<stage>:<variant> field=<name>")
+    pub load_file: fn(Vec<u8>, bool) -> std::result::Result<Primitive, String>,
     /// non-dictionary models: the alternatives are whole values
     pub whole_values: Vec<Val>,
 }
@@ -73,6 +75,25 @@ fn roundtrip<T: Object + ObjectWrite>(p0: &Primitive) -> RoundTrip {
     RoundTrip::Done { p1: deep(&p1, &r, 4), p2: deep(&p2, &r, 4) }
 }
 
+fn load_in_file<T: Object + ObjectWrite>(bytes: Vec<u8>, tolerant: bool) -> std::result::Result<Primitive, String> {
+    let po = if tolerant { ParseOptions::tolerant() } else { ParseOptions::strict() };
+    let file = FileOptions::uncached().parse_options(po).load(bytes).map_err(|e| format!("load:{}", err_variant(&e)))?;
+    let r = file.resolver();
+    let p = r.resolve(PlainRef { id: 4, gen: 0 }).map_err(|e| format!("resolve:{}", err_variant(&e)))?;
+    let t = T::from_primitive(p, &r).map_err(|e| {
+        let field = match err_root(&e) {
+            pdf::error::PdfError::FromPrimitive { field, .. } => field.to_string(),
+            pdf::error::PdfError::MissingEntry { field, .. } => field.clone(),
+            _ => String::new(),
+        };
+        format!("typed-load:{} field={}", err_variant(&e), field)
+    })?;
+    let mut storage = FileOptions::uncached().storage();
+    let p1 = t.to_primitive(&mut storage).map_err(|e| format!("write:{}", err_variant(&e)))?;
+    let out = deep(&p1, &storage.resolver(), 4);
+    Ok(out)
+}
+
 fn opt(key: &'static str, vals: Vec<Val>) -> Field {
     let mut alts = vec![None];
     alts.extend(vals.into_iter().map(Some));
@@ -111,12 +132,12 @@ pub fn models() -> &'static Vec<Model> {
         let mut m: Vec<Model> = vec![];
         macro_rules! model {
             ($name:expr, $t:ty, $catch:expr, $fields:expr) => {
-                m.push(Model { name: $name, catch_all: $catch, fields: $fields, extra_keys: true, run: roundtrip::<$t>, whole_values: vec![] })
+                m.push(Model { name: $name, catch_all: $catch, fields: $fields, extra_keys: true, run: roundtrip::<$t>, load_file: load_in_file::<$t>, whole_values: vec![] })
             };
         }
         macro_rules! whole {
             ($name:expr, $t:ty, $vals:expr) => {
-                m.push(Model { name: $name, catch_all: false, fields: vec![], extra_keys: false, run: roundtrip::<$t>, whole_values: $vals })
+                m.push(Model { name: $name, catch_all: false, fields: vec![], extra_keys: false, run: roundtrip::<$t>, load_file: load_in_file::<$t>, whole_values: $vals })
             };
         }
         use pdf::content::Matrix;
